@@ -59,18 +59,21 @@ Cap == steps <= F * F + 2
 \* (ii) bounds for the measured families.  n = size parameter, k = number of
 \* implementers of the abstract type (only the "abstract" family uses it).
 \* c0..c6 are the counter indices of /repo/verif_on.go.
-\* Shapes measured on the pinned tree (work = 3n+2, 5n, ~0.8 n^3, ~n^2/2 ...); the bounds
-\* keep the polynomial degree and allow a factor of about four.
+\* Shapes measured on the repaired tree (work = 3n+2, ~n^2, ~0.8 n^3, ~n^2/2, ~21 n^2 ...); the
+\* bounds keep the polynomial degree and allow a factor of about four.  (The repair of the overlap
+\* rule's step E made the chain family quadratic: a selection's own fields are now compared with
+\* every deeper fragment, as the rule requires.)
 Bound(fam, n, k) ==
   CASE fam = "abstract_plan"  -> 2 * n + 8                  \* planning an abstract field is lazy: no dependence on k
     [] fam = "abstract_exec"  -> 12 * n + 16                \* only the runtime type actually encountered is planned
-    [] fam = "chain_validate" -> 20 * n + 50                \* F1..Fn, Fi spreads F(i+1) twice: linear with the memo tables
+    [] fam = "chain_validate" -> 4 * n * n + 20 * n + 50    \* F1..Fn, Fi spreads F(i+1) twice: each set's own fields meet every
+                                                            \* deeper fragment once (quadratic), thanks to the memo tables
     [] fam = "chain_plan"     -> 12 * n + 20
     [] fam = "fan_validate"   -> 2 * n + 20                 \* one fragment spread at n sites
     [] fam = "mesh_validate"  -> 3 * n * n * n + 10 * n * n + 100   \* every fragment spreads every later one
     [] fam = "wide_validate"  -> 2 * n * n + 10 * n + 50    \* n selections with one response key: pairwise
     [] fam = "exclchain_validate" -> 160 * n + 100          \* parallel chains compared from exclusive and non-exclusive parents
-    [] fam = "diamond_validate"   -> 50 * n * n + 100 * n + 100  \* F(i) -> G(i),H(i) -> F(i+1): 2^i paths, 3n+1 fragments
+    [] fam = "diamond_validate"   -> 80 * n * n + 100 * n + 100  \* F(i) -> G(i),H(i) -> F(i+1): 2^i paths, 3n+1 fragments
     [] fam = "diamond_plan"       -> 28 * n + 20
     [] fam = "chain_fingerprint"   -> 4 * n + 8              \* selection sets walked by the plan-cache fingerprint
     [] fam = "diamond_fingerprint" -> 12 * n + 16
